@@ -35,7 +35,7 @@ class RangeBroken(Exception):
 
 def _parse_request(text: str, lo: int, hi: int) -> tuple:
     pairs = []
-    for part in text.split(","):
+    for part in text.replace(" ", "").split(","):
         if not part:
             continue
         if "-" in part:
@@ -201,7 +201,7 @@ def _expect_refusal(case) -> str:
         req = case.get(side + "ports") or ""
         if not req:
             continue
-        parts = [p for p in req.split(",") if p]
+        parts = [p for p in req.replace(" ", "").split(",") if p]
         has_range = any("-" in p for p in parts)
         has_single = any("-" not in p for p in parts)
         top = case["ops"][side]
@@ -257,7 +257,7 @@ def execute(ctx, case: dict) -> None:
     _drain(case, ctx)
 
 
-def _request(rng, lo, hi, small_bias=True, max_width=40, overlap=False):
+def _request(rng, lo, hi, small_bias=True, max_width=40, overlap=False, hyphen_blanks=True):
     parts = []
     used = ()
     for _ in range(rng.randint(1, 12)):
@@ -273,6 +273,10 @@ def _request(rng, lo, hi, small_bias=True, max_width=40, overlap=False):
         used = intervals.union(used, cand)
         parts.append((str(a) if rng.random() < 0.85 else f"{a}-{a}") if a == b else f"{a}-{b}")
     rng.shuffle(parts)
+    if rng.random() < 0.12:  # blanks around commas and hyphens (same request, other spelling)
+        if hyphen_blanks:  # range_ports takes them; range_protocols refuses them with a value error (not judged)
+            parts = [p.replace("-", rng.choice([" - ", " -", "- "])) if rng.random() < 0.5 else p for p in parts]
+        return rng.choice([", ", " , ", " ,"]).join(parts)
     return ",".join(parts)
 
 
@@ -285,7 +289,7 @@ def gen_cases(ctx):
             log = rng.choice(["", "", " log"])
             seq = rng.choice(["", "", "10 "])
             line = f"{seq}{rng.choice(['permit', 'deny'])} ip {addr()} {addr()}{log}"
-            yield {"k": "proto", "platform": platform, "protocols": _request(rng, 0, 255, small_bias=False, max_width=12),
+            yield {"k": "proto", "platform": platform, "protocols": _request(rng, 0, 255, small_bias=False, max_width=12, hyphen_blanks=False),
                    "line": line, "protocol_nr": rng.random() < 0.5}
             continue
         proto = rng.choice(["tcp", "udp"])
@@ -310,9 +314,9 @@ def gen_cases(ctx):
                 top = ops[side]
                 if top == "range" and rng.random() < 0.8:
                     # a request of ranges only (what a range template accepts)
-                    req = ",".join(p for p in _request(rng, 1, 65535).split(",") if "-" in p) or "5-9"
+                    req = ",".join(p for p in _request(rng, 1, 65535).replace(" ", "").split(",") if "-" in p) or "5-9"
                 elif top == "eq" and port_range and rng.random() < 0.8:
-                    req = ",".join(p for p in _request(rng, 1, 65535).split(",") if "-" not in p) or "80"
+                    req = ",".join(p for p in _request(rng, 1, 65535).replace(" ", "").split(",") if "-" not in p) or "80"
                 else:
                     req = _request(rng, 1, 65535, max_width=40 if not port_range else 3000, overlap=rng.random() < 0.25)
                 case[side + "ports"] = req
@@ -331,10 +335,14 @@ def run(ctx) -> None:
         done += 1
         if case["k"] == "ports":
             req = (case.get("srcports") or "") + "," + (case.get("dstports") or "")
+            if " " in req:
+                ctx.count("requests_spelled_with_blanks")
             sig = ("ports", case["platform"], bool(case.get("srcports")), bool(case.get("dstports")), case["ops"]["src"],
                    case["ops"]["dst"], min(8, req.count(",")), "-" in req, case["port_count"], case["port_range"], case["port_nr"])
         else:
             sig = ("proto", case["platform"], min(8, case["protocols"].count(",")), "-" in case["protocols"], case["protocol_nr"])
+            if " " in case["protocols"]:
+                ctx.count("requests_spelled_with_blanks")
         ctx.judged(sig=sig, nontrivial=True, n=1, sample=case if done % 100 == 1 else None)
     ctx.count("range_ports_contract_evaluations", STATS["rp"])
     ctx.count("cases", done)
